@@ -71,6 +71,8 @@ def seeds_table():
         q, qb = res('quick')
         t, tb = res('thorough')
         by = sorted(set(qb + tb))
+        if m.get('note'):
+            q = q + ' (obsolete, see note in meta.json)'
         rows.append('| %s | %s | %s (%s) | %s | %s | %s | %s |' % (sid, m.get('property'), m.get('summary', '')[:140].replace('|', '/'), ', '.join(m.get('functions', []))[:80].replace('|', '/'), m.get('needs', '')[:120].replace('|', '/'), q, t, ', '.join(by) or '-'))
     return '\n'.join(rows)
 
